@@ -707,3 +707,95 @@ M c12_stitch_extra_skip C12,C15 'C12.2b|C15.1d' 'stitcher skips entries by a tex
 M c14_reuse_extra_condition C14 'C14.2d' 'reuse additionally requires a small entry' src/backup.rs \
 '                    .all(|addr| self.block_dir.contains(&addr.hash))' \
 '                    .all(|addr| self.block_dir.contains(&addr.hash) && addr.len < (1 << 40))'
+# ---- round 2 additions
+M c08_whole_hunk_ge C08 'C08.8' 'whole hunk returned when first >= after (resume path listed twice)' src/index/mod.rs \
+'                    if first.apath > *after {' '                    if first.apath >= *after {'
+M c08_skip_on_first C08 'C08.8' 'hunk skipped when its FIRST entry is <= after (straddling hunk lost)' src/index/mod.rs \
+'                if let Some(last) = entries.last() {
+                    if last.apath <= *after {' \
+'                if let Some(last) = entries.first() {
+                    if last.apath <= *after {'
+M c08_whole_on_last C08 'C08.8' 'whole hunk returned when its LAST entry is > after' src/index/mod.rs \
+'                if let Some(first) = entries.first() {
+                    if first.apath > *after {' \
+'                if let Some(first) = entries.last() {
+                    if first.apath > *after {'
+M c17_flush_on_elapsed C17 'C17.1c' 'backup flushes when wall-clock time has elapsed' src/backup.rs \
+'            if writer.index_writer.pending_entries() + writer.file_combiner.queue.len()
+                >= options.max_entries_per_hunk
+            {' \
+'            if writer.index_writer.pending_entries() + writer.file_combiner.queue.len()
+                >= options.max_entries_per_hunk
+                || start.elapsed() > Duration::from_secs(30)
+            {'
+M c17_branch_on_pid C17 'C17.1c' 'hunk size depends on the process id' src/backup.rs \
+'            if writer.index_writer.pending_entries() + writer.file_combiner.queue.len()
+                >= options.max_entries_per_hunk
+            {' \
+'            if writer.index_writer.pending_entries() + writer.file_combiner.queue.len()
+                >= options.max_entries_per_hunk + (std::process::id() as usize % 2)
+            {'
+M c15_child_glob_conditional C15 'C15.2' 'the /** glob is added only for patterns not ending in *' src/excludes.rs \
+'    gsb.add(
+        GlobBuilder::new(&format!("{pattern}/**"))
+            .literal_separator(true)
+            .build()
+            .map_err(|source| Error::ParseGlob { source })?,
+    );' \
+'    if !pattern.ends_with('"'"'*'"'"') {
+        gsb.add(
+            GlobBuilder::new(&format!("{pattern}/**"))
+                .literal_separator(true)
+                .build()
+                .map_err(|source| Error::ParseGlob { source })?,
+        );
+    }'
+M c13_flush_between_start_and_append C13 'C13.5b' 'push_file flushes a full buffer after taking start' src/backup.rs \
+'        self.buf.resize(start + expected_len, 0);' \
+'        if !self.queue.is_empty() && start + expected_len > self.max_block_size {
+            self.flush(monitor.clone()).await?;
+        }
+        let start2 = self.buf.len();
+        self.buf.resize(start2 + expected_len, 0);' \
+src/backup.rs \
+'                .read(&mut self.buf[start..])' \
+'                .read(&mut self.buf[start2..])' \
+src/backup.rs \
+'        self.buf.truncate(start + len);' \
+'        self.buf.truncate(start2 + len);'
+M c14_merge_string_order C14 'C14.4a' 'merge pairs basis and source by string order' src/merge.rs \
+'a.apath().cmp(b.apath())' 'a.apath().to_string().cmp(&b.apath().to_string())'
+M c01_nanos_borrow_on_seconds_sign C01 'C01.4' 'borrow decided by the sign of the seconds, not of the fraction' src/unix_time.rs \
+'    if nanos < 0 {' '    if seconds < 0 && nanos != 0 {'
+M c01_nanos_fix_without_borrow C01 'C01.4b' 'fraction corrected without borrowing a second' src/unix_time.rs \
+'        seconds -= 1;
+        nanos += 1_000_000_000;' \
+'        nanos += 1_000_000_000;'
+M c05_refs_by_recorded_count C05 'C05.4c' 'referenced_blocks walks the recorded hunk count' src/archive.rs \
+'            for hunk_number in index.hunks_available().await? {' \
+'            let hunk_count = band.get_info().await?.index_hunk_count.unwrap_or_default();
+            for hunk_number in 0..hunk_count as u32 {'
+# ---- round 3 additions
+M c07_complete_short_leftover C07 'C07.2.local' 'leftover completion widened to any shorter file' src/transport/local.rs \
+'        .is_ok_and(|m| m.is_file() && m.len() == 0)' \
+'        .is_ok_and(|m| m.is_file() && m.len() < 16)'
+M c09_hunks_skip_empty C09,C10 'C09.3j|C10.3h' 'zero-length hunk files are hidden from the listing' src/index/mod.rs \
+'                    .filter(|entry| entry.is_file())
+                    .filter_map(|entry| entry.name.parse::<u32>().ok())' \
+'                    .filter(|entry| entry.is_file() && entry.len != Some(0))
+                    .filter_map(|entry| entry.name.parse::<u32>().ok())'
+M c10_validate_asserts_order C10 'C10.1' 'validate asserts apath order on decoded entries' src/validate.rs \
+'    while let Some(entry) = stitch.next().await {
+        if entry.kind() == Kind::File {' \
+'    let mut check_order = apath::CheckOrder::new();
+    while let Some(entry) = stitch.next().await {
+        check_order.check(entry.apath());
+        if entry.kind() == Kind::File {'
+M c11_is_valid_forgets_dotdot C11 'C11.3b' 'is_valid no longer rejects ..' src/apath.rs \
+'            if part.is_empty() || part == "." || part == ".." || part.contains('"'"'\0'"'"') {' \
+'            if part.is_empty() || part == "." || part.contains('"'"'\0'"'"') {'
+M c08_retain_before_last C08 'C08.5b' 'hunk filtered before last_apath is recorded' src/index/stitch.rs \
+'                        if let Some(last_apath) = hunk.last().map(|entry| entry.apath.clone()) {' \
+'                        let mut hunk = hunk;
+                        hunk.retain(|entry| self.subtree.is_prefix_of(&entry.apath));
+                        if let Some(last_apath) = hunk.last().map(|entry| entry.apath.clone()) {'
